@@ -86,7 +86,7 @@ func init() {
 		Real: []string{"IpfsDHT.GetClosestPeers", "query.go state machine incl. follow-up phase", "qpeerset", "lookup events", "kbucket routing table (refresh stamps)", "ProtocolMessenger"},
 		Stub: []string{"host.Host/network (simhost)", "pb.MessageSender (level A)", "remote peers (scripted: k-bucket complete, lazily computed; uniform or thin network of up to thousands of peers)"},
 		Faults: append([]string{"time_advance", "probe_term_completed", "probe_followup_ran", "probe_stamp_checked",
-			"probe_deep_judged", "probe_deep_long_path", "probe_deep_very_long_path", "probe_deep_wide_state", "probe_deep_wide_per_k"}, c02BareFaults...),
+			"probe_deep_judged", "probe_deep_long_path", "probe_deep_very_long_path", "probe_deep_wide_state", "probe_deep_wide_per_k"}, append(append(append([]string{}, c02BareFaults...), c02WideFaults...), c02StaleFaults...)...),
 	})
 }
 
@@ -267,6 +267,11 @@ func runC02Deep(s *sim.Sim) {
 	}
 	c.Alpha = s.Range("alpha", 1, 4)
 	c.Beta = s.Range("beta", 1, c.K+1)
+	// wide configurations (c02_wide.go): K beyond the small range, one run in six
+	if s.Chance("wide-k", 1, 6) {
+		c.K = s.Range("k-wide", c02SmallK+1, 32)
+		c.Beta = s.Range("beta-wide", 1, c.K+1)
+	}
 	c.Key = fmt.Sprintf("key-%d", s.Draw("key", 1<<16))
 	keyKad := simnet.KadOfKey(c.Key)
 
@@ -299,6 +304,12 @@ func runC02Deep(s *sim.Sim) {
 	// seeds without a stored address; the host reaches peers by identity
 	bare := drawBareWorld(s)
 	bare.install(&c)
+	// the order of the records in a reply (c02_wide.go); leftovers of earlier
+	// encounters in the peerstore (c02_stale.go), noted lazily: for the seeds
+	// before the lookup starts, for every other peer right before the first
+	// reply that names it is delivered (nothing reads the notes earlier)
+	order := drawReplyOrder(s)
+	stale := drawStaleWorld(s)
 
 	u := simnet.NewUniverse(useed, 0)
 	w := &deepWorld{u: u, key: keyKad, K: c.K, policy: policy, seed: rng.next(), knows: map[peer.ID][]*simnet.Peer{}}
@@ -362,8 +373,14 @@ func runC02Deep(s *sim.Sim) {
 		seedRecs = append(seedRecs, &cp)
 	}
 	o.table = h.Seed(seedRecs)
+	for _, p := range seeds {
+		stale.note(h, p)
+	}
 	o.stampsPre = h.DHT.RoutingTable().GetTrackedCplsForRefresh()
 	s.MaxSteps = 3000
+	if c.K > c02SmallK {
+		s.MaxSteps = 5000
+	}
 
 	evCtx, evCancel := context.WithCancel(context.Background())
 	oldBuf := dht.LookupEventBufferSize
@@ -437,7 +454,14 @@ func runC02Deep(s *sim.Sim) {
 							hopsToNearest = answered
 						}
 					}
-					recs := simnet.ToPB(near)
+					for _, q := range near {
+						stale.note(h, q)
+					}
+					recs := order.arrange(x, simnet.ToPB(near))
+					ids = ids[:0]
+					for _, rec := range recs {
+						ids = append(ids, peer.ID(rec.Id))
+					}
 					good := map[peer.ID]bool{} // named with an address
 					for _, rec := range recs {
 						if c.Present != nil {
@@ -471,8 +495,8 @@ func runC02Deep(s *sim.Sim) {
 	if thin {
 		shape = "thin"
 	}
-	s.Summary["cfg"] = fmt.Sprintf("deep shape=%s pool=%d N=%d K=%d alpha=%d beta=%d policy=%d seedMode=%d table=%d answered=%d hopsToNearest=%d bare=%s",
-		shape, pool, c.N, c.K, c.Alpha, c.Beta, policy, seedMode, len(o.table), answered, hopsToNearest, bare)
+	s.Summary["cfg"] = fmt.Sprintf("deep shape=%s pool=%d N=%d K=%d alpha=%d beta=%d policy=%d seedMode=%d table=%d answered=%d hopsToNearest=%d bare=%s order=%s stale=%s",
+		shape, pool, c.N, c.K, c.Alpha, c.Beta, policy, seedMode, len(o.table), answered, hopsToNearest, bare, order, stale)
 
 	switch {
 	case s.Failed():
@@ -488,7 +512,7 @@ func runC02Deep(s *sim.Sim) {
 		res, _ := o.op.Result.([]peer.ID)
 		s.Tracef("result %s err=%v answered=%d hops=%d", names(u, res), o.op.Err, answered, hopsToNearest)
 		if !s.Failed() {
-			checkC02(s, o)
+			checkC02(s, o, &c02Extras{stale: stale})
 			s.Count("probe_deep_judged")
 			if hopsToNearest >= 8 {
 				s.Count("probe_deep_long_path")
